@@ -19,12 +19,9 @@ Lemma decodeTM_ok : forall o m, decodeTM o = Ok m ->
   tm_id m = cval (member "id" conv_str o) "".
 Proof.
   intros o m H. unfold decodeTM in H.
-  destruct (is_panic (member "pointOfOrigin" conv_point o)).
-  - cbn [andb] in H. destruct (_ || _) in H; discriminate.
-  - cbn [andb] in H.
-    match type of H with (if ?hs then _ else _) = _ => destruct hs end; [discriminate|].
-    match type of H with (if tm_valid ?mm then _ else _) = _ => destruct (tm_valid mm) eqn:EV end; [|discriminate].
-    inversion H; subst. clear H. split; [exact EV|]. repeat split; reflexivity.
+  match type of H with (if ?hs then _ else _) = _ => destruct hs end; [discriminate|].
+  match type of H with (if tm_valid ?mm then _ else _) = _ => destruct (tm_valid mm) eqn:EV end; [|discriminate].
+  inversion H; subst. clear H. split; [exact EV|]. repeat split; reflexivity.
 Qed.
 
 (** truncation toward zero of a float strictly between -1 and 1 is 0 *)
@@ -180,65 +177,24 @@ Proof.
   - exact (nonpositive_float_rejected_tm tmo k d q m Hk HK HF Hq Hm).
 Qed.
 
-(** ** decode_total, the part that holds: decoding can only panic on a point array with more than 2 elements *)
-Definition point_key (k : string) : bool :=
-  String.eqb k "pointOfOrigin" || String.eqb k "lowerLeft" || String.eqb k "upperRight".
-Definition short_arr (v : json) : bool := match v with JArr l => Nat.leb (length l) 2 | _ => true end.
-Fixpoint points_short (j : json) : bool :=
-  match j with
-  | JArr l => forallb points_short l
-  | JObj l => forallb (fun kv => (if point_key (fst kv) then short_arr (snd kv) else true) && points_short (snd kv)) l
-  | _ => true
-  end.
-
+(** ** decode_total: decoding never panics (since the repair of F6c, without any hypothesis on the document) *)
 Definition no_panic {A} (r : outcome A) : Prop := r <> Panic /\ r <> ErrorOrPanic.
 
-Lemma point_loop_no_panic : forall l i p, (length l + i <= 2)%nat -> point_loop l i p <> CPanic.
+Lemma decodeTM_no_panic : forall o, no_panic (decodeTM o).
 Proof.
-  induction l as [|x r IH]; intros i p H; simpl.
-  - discriminate.
-  - simpl in H. destruct x; try discriminate.
-    + apply IH. lia.
-    + destruct (f64_dec d); [|discriminate]. destruct i as [|[|i]].
-      * apply IH. lia.
-      * apply IH. lia.
-      * lia.
-Qed.
-
-Lemma conv_point_no_panic : forall v, short_arr v = true -> conv_point v <> CPanic.
-Proof.
-  intros v H. unfold conv_point. destruct v; try discriminate.
-  apply point_loop_no_panic. simpl in H. apply Nat.leb_le in H. lia.
-Qed.
-
-Lemma points_short_member : forall o k v, points_short (JObj o) = true -> In (k, v) o ->
-  points_short v = true /\ (point_key k = true -> short_arr v = true).
-Proof.
-  intros o k v H HI. cbn [points_short] in H. rewrite forallb_forall in H. specialize (H _ HI). cbn [fst snd] in H.
-  apply andb_true_iff in H. destruct H as [H1 H2]. split; auto. intro K. rewrite K in H1. exact H1.
-Qed.
-
-Lemma decodeTM_no_panic : forall o, points_short (JObj o) = true -> no_panic (decodeTM o).
-Proof.
-  intros o H. unfold decodeTM.
-  assert (NP : is_panic (member "pointOfOrigin" conv_point o) = false).
-  { unfold member. destruct (lookup_last "pointOfOrigin" o) as [v|] eqn:E; [|reflexivity].
-    apply lookup_last_in in E. destruct (points_short_member _ _ _ H E) as [_ S].
-    assert (C := conv_point_no_panic v (S eq_refl)). destruct (conv_point v); try reflexivity. contradiction. }
-  rewrite NP. cbn [andb].
+  intros o. unfold decodeTM.
   match goal with |- no_panic (if ?c then _ else _) => destruct c end; [split; discriminate|].
   match goal with |- no_panic (if ?c then _ else _) => destruct c end; split; discriminate.
 Qed.
 
-Lemma decodeTMs_no_panic : forall l acc, points_short (JArr l) = true -> no_panic (decodeTMs l acc).
+Lemma decodeTMs_no_panic : forall l acc, no_panic (decodeTMs l acc).
 Proof.
-  induction l as [|x r IH]; intros acc H; simpl.
+  induction l as [|x r IH]; intros acc; simpl.
   - split; discriminate.
-  - cbn [points_short forallb] in H. apply andb_true_iff in H. destruct H as [H1 H2].
-    destruct x; try (split; discriminate).
-    destruct (decodeTM_no_panic l H1) as [N1 N2].
+  - destruct x; try (split; discriminate).
+    destruct (decodeTM_no_panic l) as [N1 N2].
     destruct (decodeTM l) as [m| | |]; cbn [bind]; try (split; discriminate); try contradiction.
-    destruct (parse_int (tm_id m)); [apply IH; exact H2|split; discriminate].
+    destruct (parse_int (tm_id m)); [apply IH|split; discriminate].
 Qed.
 
 Lemma decodeCRS_no_panic : forall j, no_panic (decodeCRS j).
@@ -257,34 +213,28 @@ Proof.
 Qed.
 
 Lemma foldO_no_panic : forall {A S} (f : S -> A -> outcome S) l,
-  (forall s x, In x l -> no_panic (f s x)) -> forall s0, no_panic (foldO f l s0).
+  (forall s x, no_panic (f s x)) -> forall s0, no_panic (foldO f l s0).
 Proof.
   intros A S f. induction l as [|x r IH]; intros H s0; simpl.
   - split; discriminate.
-  - destruct (H s0 x (or_introl eq_refl)) as [N1 N2].
+  - destruct (H s0 x) as [N1 N2].
     destruct (f s0 x) as [s1| | |]; cbn [bind]; try (split; discriminate); try contradiction.
-    apply IH. intros s y Hy. apply H. right; exact Hy.
+    apply IH. exact H.
 Qed.
 
-Lemma bb_step_no_panic : forall a k v, (point_key k = true -> short_arr v = true) -> no_panic (bb_step a (k, v)).
+Lemma bb_step_no_panic : forall a kv, no_panic (bb_step a kv).
 Proof.
-  intros a k v H. unfold bb_step.
-  destruct (String.eqb k "lowerLeft") eqn:K1.
-  { assert (S : short_arr v = true) by (apply H; unfold point_key; rewrite K1; apply orb_true_r || (rewrite orb_true_r; reflexivity)).
-    assert (C := conv_point_no_panic v S). destruct (conv_point v); try (split; discriminate). contradiction. }
-  destruct (String.eqb k "upperRight") eqn:K2.
-  { assert (S : short_arr v = true) by (apply H; unfold point_key; rewrite K2; apply orb_true_r).
-    assert (C := conv_point_no_panic v S). destruct (conv_point v); try (split; discriminate). contradiction. }
+  intros a [k v]. unfold bb_step.
+  destruct (String.eqb k "lowerLeft"). { destruct (conv_point v); split; discriminate. }
+  destruct (String.eqb k "upperRight"). { destruct (conv_point v); split; discriminate. }
   destruct (String.eqb k "orderedAxes"). { destruct (conv_strs v); split; discriminate. }
   destruct (nums_finite v); [|split; discriminate]. destruct (String.eqb k "crs"); split; discriminate.
 Qed.
 
-Lemma decodeBBox_no_panic : forall j, points_short j = true -> no_panic (decodeBBox j).
+Lemma decodeBBox_no_panic : forall j, no_panic (decodeBBox j).
 Proof.
-  intros j H. unfold decodeBBox. destruct j as [| | | | |o]; try (split; discriminate).
-  assert (F : no_panic (foldO bb_step o (MkBBAcc None None None None))).
-  { apply foldO_no_panic. intros s [k v] HI. apply bb_step_no_panic. apply (points_short_member _ _ _ H HI). }
-  destruct F as [F1 F2].
+  intros j. unfold decodeBBox. destruct j as [| | | | |o]; try (split; discriminate).
+  destruct (foldO_no_panic bb_step o bb_step_no_panic (MkBBAcc None None None None)) as [F1 F2].
   destruct (foldO bb_step o (MkBBAcc None None None None)) as [a| | |]; cbn [bind]; try (split; discriminate); try contradiction.
   destruct (ba_crs a) as [cj|]; [|split; discriminate].
   destruct (decodeCRS_no_panic cj) as [C1 C2].
@@ -293,9 +243,9 @@ Proof.
   destruct (ba_axes a); [destruct (Nat.eqb _ _)|]; split; discriminate.
 Qed.
 
-Lemma top_step_no_panic : forall a k v, points_short v = true -> no_panic (top_step a (k, v)).
+Lemma top_step_no_panic : forall a kv, no_panic (top_step a kv).
 Proof.
-  intros a k v H. unfold top_step.
+  intros a [k v]. unfold top_step.
   assert (S1 : forall set, no_panic (top_str v set a)) by (intros; unfold top_str; destruct (conv_str v); split; discriminate).
   assert (S2 : forall set, no_panic (top_strs v set a)) by (intros; unfold top_strs; destruct (conv_strs v); split; discriminate).
   destruct (String.eqb k "id"); [apply S1|]. destruct (String.eqb k "title"); [apply S1|].
@@ -303,31 +253,48 @@ Proof.
   destruct (String.eqb k "uri"); [apply S1|]. destruct (String.eqb k "orderedAxes"); [apply S2|].
   destruct (String.eqb k "wellKnownScaleSet"); [apply S1|].
   destruct (String.eqb k "boundingBox").
-  { destruct (decodeBBox_no_panic v H) as [B1 B2]. destruct (decodeBBox v); cbn [bind]; try (split; discriminate); contradiction. }
+  { destruct (decodeBBox_no_panic v) as [B1 B2]. destruct (decodeBBox v); cbn [bind]; try (split; discriminate); contradiction. }
   destruct (nums_finite v); [|split; discriminate].
   destruct (String.eqb k "crs"); [split; discriminate|]. destruct (String.eqb k "tileMatrices"); split; discriminate.
 Qed.
 
-Theorem decode_total_partial_lemma : forall j, points_short j = true -> decodeTMS j <> Panic /\ decodeTMS j <> ErrorOrPanic.
+Theorem decode_total_lemma : forall j, decodeTMS j <> Panic /\ decodeTMS j <> ErrorOrPanic.
 Proof.
-  intros j H. change (no_panic (decodeTMS j)). unfold decodeTMS. destruct j as [| | | | |o]; try (split; discriminate).
-  assert (F : no_panic (foldO top_step o top_empty)).
-  { apply foldO_no_panic. intros s [k v] HI. apply top_step_no_panic. apply (points_short_member _ _ _ H HI). }
-  destruct F as [F1 F2].
-  destruct (foldO top_step o top_empty) as [a| | |] eqn:EF; cbn [bind]; try (split; discriminate); try contradiction.
-  assert (HT := fold_top_tms _ _ _ EF). cbn [top_empty ta_tms] in HT.
+  intros j. change (no_panic (decodeTMS j)). unfold decodeTMS. destruct j as [| | | | |o]; try (split; discriminate).
+  destruct (foldO_no_panic top_step o top_step_no_panic top_empty) as [F1 F2].
+  destruct (foldO top_step o top_empty) as [a| | |]; cbn [bind]; try (split; discriminate); try contradiction.
   unfold decodeTop. destruct (ta_crs a) as [cj|]; [|split; discriminate].
   destruct (decodeCRS_no_panic cj) as [C1 C2].
   destruct (decodeCRS cj); cbn [bind]; try (split; discriminate); try contradiction.
-  destruct (ta_tms a) as [[| | | |l|]|] eqn:ET; try (split; discriminate).
-  assert (PS : points_short (JArr l) = true).
-  { destruct (lookup_last "tileMatrices" o) as [v|] eqn:EL; [|discriminate].
-    inversion HT; subst v. apply lookup_last_in in EL. apply (points_short_member _ _ _ H EL). }
-  destruct (decodeTMs_no_panic l [] PS) as [M1 M2].
+  destruct (ta_tms a) as [[| | | |l|]|]; try (split; discriminate).
+  destruct (decodeTMs_no_panic l []) as [M1 M2].
   destruct (decodeTMs l []) as [ms| | |]; cbn [bind]; try (split; discriminate); try contradiction.
   match goal with |- no_panic (if ?c then _ else _) => destruct c end; split; discriminate.
 Qed.
 
+(** a point member is accepted only as an array of exactly two finite numbers *)
+Theorem point_exact_lemma : forall v p, conv_point v = CVal p -> v = JArr [JNum (fst p); JNum (snd p)].
+Proof.
+  intros v p H. unfold conv_point in H.
+  destruct v as [| | | |l|]; try discriminate. destruct l as [|x [|y [|z r]]]; try discriminate.
+  - destruct x; discriminate.
+  - destruct x; try discriminate. destruct y; try discriminate.
+    destruct (f64_dec d); [|discriminate]. destruct (f64_dec d0); [|discriminate]. inversion H; subst. reflexivity.
+  - destruct x; try discriminate. destruct y; discriminate.
+Qed.
+
+Theorem origin_exact_lemma : forall o m, decodeTM o = Ok m ->
+  exists a b, lookup_last "pointOfOrigin" o = Some (JArr [JNum a; JNum b]) /\ tm_origin m = Some (a, b).
+Proof.
+  intros o m H. assert (W := decodeTM_wf o m H). destruct W as [_ [_ [_ [p [HO _]]]]].
+  unfold decodeTM in H.
+  match type of H with (if ?hs then _ else _) = _ => destruct hs end; [discriminate|].
+  match type of H with (if tm_valid ?mm then _ else _) = _ => destruct (tm_valid mm) end; [|discriminate].
+  inversion H; subst. clear H. cbn [tm_origin] in *. unfold copt, member in *.
+  destruct (lookup_last "pointOfOrigin" o) as [v|]; [|discriminate].
+  destruct (conv_point v) eqn:EC; try discriminate. inversion HO; subst.
+  apply point_exact_lemma in EC. subst v. exists (fst p), (snd p). split; [reflexivity|]. destruct p; reflexivity.
+Qed.
 
 (** ** corollaries stated in Properties/C16.v *)
 Theorem decode_encode_decode_small_lemma : forall j t, decodeTMS j = Ok t -> tms_small t ->
